@@ -7,7 +7,7 @@ UT(s) == TextV(s)
 Ts(d, h) == TsV(<<2021, 3, d, h, 0, 0, 0>>)
 U == { Null,
        IntV(-1), IntV(0), IntV(1), IntV(2), MaxV(0), MaxV(-1), MinV(0), MinV(1), I53(0), I53(1), I53(2), I31(0), I31(5), RealV(1, 4), Q25n,
-       RealV(0, 1), NZero, RealV(1, 1), RealV(3, 2), RealV(-1, 2), RealV(2, 1), PInf, NInf, NaN, P63, N63, P53, P53b,
+       RealV(0, 1), NZero, RealV(1, 1), RealV(3, 2), RealV(-1, 2), RealV(2, 1), PInf, NInf, NaN, NNaN, P63, N63, P53, P53b,
        BoolV(FALSE), BoolV(TRUE),
        UT(<<>>), UT(<<97>>), UT(<<97, 97>>), UT(<<98>>), UT(<<65>>), UT(<<233>>), UT(<<128512>>),
        ArrV("int", <<>>), ArrV("int", <<IntV(1)>>), ArrV("int", <<IntV(1), IntV(2)>>), ArrV("int", <<IntV(2)>>), ArrV("int", <<Null>>),
